@@ -6,31 +6,38 @@ import FB.Lemmas.Spec
 namespace FB
 open FS Spec
 
-/-- C10 (success): `build_file` reports success only if the target is a regular file afterwards, and
-    the value is the function's (already sanitized) return value. -/
+/-- C10 (success): `build_file` reports success only if the function wrote the target; the target is
+    then a regular file holding exactly the bytes written last, and the value is the function's
+    (already sanitized) return value. -/
 theorem C10_success (s : SpecSt) (path : Path) (made : List Path) (r : CallRes) (j : Json)
-    (h : (bfFinish s path made r).1 = .ok j) :
-    r = .ok j ∧ (bfFinish s path made r).2.fs.isFile path = true ∧
+    (hp : path ≠ []) (h : (bfFinish s path made r).1 = .ok j) :
+    r = .ok j ∧ (∃ b m, pendingFind s.pending path = some (b, m) ∧
+      (bfFinish s path made r).2.fs.get path = some (.file b m)) ∧
     path ∈ (bfFinish s path made r).2.outputs := by
   unfold bfFinish at h ⊢
   cases r with
   | error e => simp at h
   | ok v =>
     simp only at h ⊢
-    by_cases hf : s.fs.isFile path = true
-    · simp only [hf, if_true] at h ⊢
-      simp at h; subst h; simp [hf]
-    · simp [hf] at h
+    cases hw : pendingFind s.pending path with
+    | none => simp [hw] at h
+    | some bm =>
+      obtain ⟨b, m⟩ := bm
+      simp only [hw] at h ⊢
+      simp at h; subst h
+      exact ⟨rfl, ⟨b, m, rfl, get_set_self _ _ _ hp⟩, by simp⟩
 
 /-- C10 (failure): if the function raises, returns a non-JSON value (`.error .typeErr` from `ret`) or
-    does not create the file, the exception propagates unchanged (or is `notCreated`) and the target
-    is not a regular file afterwards; nothing but the target and the directories made for it is
-    touched. -/
+    does not create the file, the exception propagates unchanged (or is `notCreated`), nothing appears
+    at the target, the recorded outputs are unchanged, and the tree is touched only by removing
+    directories made for this call. -/
 theorem C10_failure (s : SpecSt) (path : Path) (made : List Path) (r : CallRes) (e : Exc)
     (h : (bfFinish s path made r).1 = .error e) :
-    (r = .error e ∨ (∃ j, r = .ok j ∧ e = .runtime .notCreated ∧ s.fs.isFile path = false)) ∧
-    (bfFinish s path made r).2.fs.isFile path = false ∧
-    (bfFinish s path made r).2.outputs = s.outputs := by
+    (r = .error e ∨ (∃ j, r = .ok j ∧ e = .runtime .notCreated ∧ pendingFind s.pending path = none)) ∧
+    (s.fs.isFile path = false → (bfFinish s path made r).2.fs.isFile path = false) ∧
+    (bfFinish s path made r).2.outputs = s.outputs ∧
+    (∀ q, (bfFinish s path made r).2.fs.get q = s.fs.get q ∨
+      (q ∈ made ∧ s.fs.get q = some .dir ∧ (bfFinish s path made r).2.fs.get q = none)) := by
   have key2 : ∀ (fs : FS), fs.isFile path = false → (rmEmpty fs made).isFile path = false := by
     intro fs hf
     rcases rmEmpty_get made fs path with h' | ⟨_, _, hn⟩
@@ -41,15 +48,15 @@ theorem C10_failure (s : SpecSt) (path : Path) (made : List Path) (r : CallRes) 
   | error e' =>
     simp only at h ⊢
     simp at h; subst h
-    exact ⟨Or.inl rfl, key2 _ (isFile_eraseIfFile _ _), trivial⟩
+    refine ⟨Or.inl ?_, key2 _, ?_, fun q => rmEmpty_get made s.fs q⟩ <;> first | rfl | trivial
   | ok v =>
     simp only at h ⊢
-    by_cases hf : s.fs.isFile path = true
-    · simp [hf] at h
-    · have hf' : s.fs.isFile path = false := by simpa using hf
-      rw [if_neg hf] at h ⊢
+    cases hw : pendingFind s.pending path with
+    | some bm => obtain ⟨b, m⟩ := bm; simp [hw] at h
+    | none =>
+      simp only [hw] at h ⊢
       simp at h; subst h
-      exact ⟨Or.inr ⟨v, rfl, rfl, hf'⟩, key2 _ (isFile_eraseIfFile _ _), rfl⟩
+      refine ⟨Or.inr ⟨v, ?_, ?_, ?_⟩, key2 _, ?_, fun q => rmEmpty_get made s.fs q⟩ <;> first | rfl | trivial
 
 /-- C10 (setup): when `build_file` gets as far as calling the function, the target is absent, every
     directory made for it exists, and the target is hidden from queries (invisible while the function
